@@ -209,6 +209,9 @@ func c17PreDesc(dc *c17DoorCase) string {
 		if row.PreHow == "same_pair_other_curve" {
 			return "; history: the same pair was presented at this door immediately before with the other curve stated"
 		}
+		if row.PreHow == "intact_point_earlier_in_the_list" {
+			return "; history: the intact point the pair was made from stands directly before it in the same list"
+		}
 		return fmt.Sprintf("; history: the intact point the pair was made from was presented at this door immediately before on its own curve %s", row.Base)
 	case "reuse":
 		how := map[string]string{"json": "decoded from JSON naming", "legacy_json": "decoded from JSON without a curve name while the default curve was",
@@ -687,6 +690,13 @@ func c17Prepare(dc *c17DoorCase) (*c17DoorObj, *c17Finding) {
 	switch row.PreKind {
 	case "fresh", "":
 	case "seen":
+		if row.PreHow == "intact_point_earlier_in_the_list" {
+			// the history is part of the list itself (c17BuildCases)
+			if row.Door != "crypto.UnFlattenECPoints" || dc.Prev == nil || dc.Pos < 1 || dc.Pos >= len(dc.List) || dc.List[dc.Pos-1] != *dc.Prev {
+				return nil, &c17Finding{Inconcl: true, What: "the list does not hold the intact point before the pair"}
+			}
+			break
+		}
 		in := c17Pres{statedBy: row.StatedBy, form: dc.Form}
 		switch row.PreHow {
 		case "same_pair_other_curve":
@@ -968,9 +978,17 @@ func c17BuildCases(row c17Row, n int, rng *rand.Rand, pool map[string][]obs.Pt) 
 		}
 		switch row.PreKind {
 		case "seen":
-			if row.PreHow == "intact_point_own_curve" {
+			if row.PreHow == "intact_point_own_curve" || row.PreHow == "intact_point_earlier_in_the_list" {
 				v := c17FromPt(u)
 				dc.Prev = &v
+			}
+			if row.PreHow == "intact_point_earlier_in_the_list" {
+				// the intact point directly before the pair (it is a point of the stated curve iff base = stated; otherwise
+				// the list is refused for two reasons, which is what the model expects anyway)
+				l := append([]c17XY{}, dc.List[:dc.Pos]...)
+				l = append(l, *dc.Prev)
+				dc.List = append(l, dc.List[dc.Pos:]...)
+				dc.Pos++
 			}
 		case "reuse":
 			dc.Embed = embeds[i%len(embeds)]
